@@ -5,6 +5,7 @@ import copy as _copy
 import os
 import warnings
 
+import math
 import numpy as np
 from hypothesis import strategies as st
 
@@ -311,6 +312,7 @@ def run_case(case):
     had_center = False
     struct_after_center = 0
     n_struct = 0
+    n_stack_ops = 0
     observed_cache = False
     with warnings.catch_warnings():
         warnings.simplefilter("ignore")
@@ -374,7 +376,12 @@ def run_case(case):
                 idx = list(range(0, k))
                 part = src.t.atom_slice(idx)
                 # no coincident atoms (outside the domain of e.g. shrake_rupley): shift depends on the stacking depth
-                part.xyz = part.xyz + np.float32(0.07 + 0.09 * src.atoms.count("stack"))
+                # (a scalar shift growing with the depth is not enough: after an atom_slice two different histories reach the same
+                # depth, and sums of shifts coincide; one direction per stack operation of the case makes every sum of shifts unique)
+                n_stack_ops += 1
+                k_ = n_stack_ops
+                u_ = np.array([math.cos(2.399963 * k_), math.sin(2.399963 * k_), 0.37 + 0.11 * k_])
+                part.xyz = part.xyz + (np.float32(0.07 + 0.03 * k_) * u_ / np.linalg.norm(u_)).astype(np.float32)
                 out = src.t.stack(part)
                 new = _copy.copy(src)
                 new.xyz = np.concatenate([src.xyz, part.xyz], axis=1)
@@ -470,6 +477,13 @@ def run_case(case):
                         centred_then_struct = True
             elif name == "obs_analysis":
                 oname, fn = _OBS[r % len(_OBS)]
+                if oname.startswith("shrake_rupley") and src.t.n_atoms <= 2000:
+                    # coincident atoms are outside the function's domain (the C kernel terminates the process on them)
+                    x_ = src.t.xyz.astype(np.float64)
+                    d_ = np.linalg.norm(x_[:, :, None, :] - x_[:, None, :, :], axis=-1) + np.eye(src.t.n_atoms)[None] if src.t.n_atoms <= 400 else None
+                    if d_ is not None and d_.min() < 1e-4:
+                        labels.append("obs-skipped:coincident-atoms")
+                        continue
                 snap = _snapshot(src.t)
                 try:
                     fn(src.t)
